@@ -18,7 +18,7 @@ objs=[f('+')*v('-')*dS + f('-')*f('-')*v('+')*dS]'''),
     corpus._c("c02_int_facet_hex_normal", '''
 m=mesh("hexahedron"); V=space(m,"DQ",1); v=TestFunction(V); f=Coefficient(V); n=FacetNormal(m)
 objs=[f('+')*n('+')[2]*v('-')*dS + f('-')*n('-')[0]*v('+')*dS]'''),
-    corpus._c("c02_ext_facet_prism_normal", '''
+    corpus._c("c02_mayreject_ext_facet_prism_normal", '''
 m=mesh("prism"); V=space(m,"P",1); v=TestFunction(V); f=Coefficient(V); n=FacetNormal(m)
 objs=[f*n[2]*v*ds + f*n[0]*v*ds]'''),
     corpus._c("c02_ext_facet_pyramid", '''
